@@ -50,8 +50,10 @@ pub struct Arena {
     map: HashMap<Node, Id>,
     /// stack of path conditions (boolean ids) established by enclosing lazy_select branches
     pub path: Vec<Id>,
-    /// partial operations executed: (kind, operand ids, path condition id)
-    pub partial: Vec<(&'static str, Vec<Id>, Id)>,
+    /// partial operations executed: (kind, operand ids, path condition id, run number)
+    pub partial: Vec<(&'static str, Vec<Id>, Id, u32)>,
+    /// number of the current symbolic run (one per decision vector for SymF)
+    pub run: u32,
 }
 
 thread_local! {
@@ -114,7 +116,8 @@ impl Arena {
     }
     fn log_partial(&mut self, kind: &'static str, ops: Vec<Id>) {
         let pc = self.pathcond();
-        self.partial.push((kind, ops, pc));
+        let run = self.run;
+        self.partial.push((kind, ops, pc, run));
     }
 
     /// Builds a node with constant folding (in f64, what the code itself computes for constants) and the handful of
